@@ -336,6 +336,98 @@ def check_array_fills(rep, mod):
                 sample='%s: %d bytes = %d x %d' % (f.name, ln, n, es) if f.name == 'make_inflate_huff_code_dist' else None)
 
 
+def check_spec_advance(rep):
+    """The asm decoders advance next_out by a decoded match length BEFORE the copy ("determine next_out after the copy is finished") and decode the distance afterwards.
+    Exits taken in between - invalid distance symbol, invalid look-back - must take the advance back, or the caller is told about bytes that were never written
+    (stale contents of the output / history buffer delivered as data).  The advance is recognised structurally: an increment of the output cursor by a register for which the
+    same function also contains the compensating `sub cursor, register`."""
+    import asmdb
+    from asmdb import REG64, is_mem, parse_mem
+    R = rep.rule('R-SPEC-ADVANCE', 'decode_huffman_code_block_stateless_01/_04: the output cursor is the register loaded from state->next_out; for every "cursor += reg" (add / lea) whose amount register is also '
+                 'subtracted from the cursor somewhere in the function (a speculative advance past a copy that has not happened yet), every path from the advance to the store of the cursor into state->next_out passes the copy (a store through a '
+                 'register other than the state pointer and rsp), the compensating subtraction, or a redefinition of the cursor', floor=2, unit='speculative advances')
+    no = c19.field_offsets('struct inflate_state', ['next_out'])['next_out']
+    units = asmdb.units('default')
+    n = 0
+    for un, u in sorted(units.items()):
+        for fn, f in sorted(u.funcs.items()):
+            if not re.match(r'^decode_huffman_code_block_stateless_0\d$', fn):
+                continue
+            cur = sreg = None
+            for a in f.addrs:
+                i = u.insns[a]
+                if i.mn == 'mov' and len(i.ops) == 2 and i.ops[0] in REG64 and REG64[i.ops[0]][1] == 64 and is_mem(i.ops[1]):
+                    pm = parse_mem(i.ops[1])
+                    if pm and pm['base'] in REG64 and not pm['index'] and pm['disp'] == no and pm['base'] not in ('rsp', 'rbp'):
+                        cur, sreg = REG64[i.ops[0]][0], REG64[pm['base']][0]
+                        break
+            if cur is None:
+                raise AnalysisBroken('%s: load of state->next_out into a register not found' % fn)
+            subs = {}
+            advs = []
+            for a in f.addrs:
+                i = u.insns[a]
+                if i.mn == 'sub' and len(i.ops) == 2 and i.ops[0] == cur and i.ops[1] in REG64 and REG64[i.ops[1]][1] == 64:
+                    subs.setdefault(REG64[i.ops[1]][0], []).append(a)
+                if i.mn == 'add' and len(i.ops) == 2 and i.ops[0] == cur and i.ops[1] in REG64 and REG64[i.ops[1]][1] == 64:
+                    advs.append((a, REG64[i.ops[1]][0]))
+                if i.mn == 'lea' and len(i.ops) == 2 and i.ops[0] == cur and is_mem(i.ops[1]):
+                    pm = parse_mem(i.ops[1])
+                    if pm and pm['base'] == cur and pm['index'] in REG64 and pm['scale'] == 1:
+                        advs.append((a, REG64[pm['index']][0]))
+            spec = [(a, r) for a, r in advs if r in subs]
+            if not spec:
+                raise AnalysisBroken('%s: no speculative advance of the output cursor (cursor += reg with a compensating sub) found' % fn)
+
+            def cleanses(i, r):
+                if i.mn == 'sub' and len(i.ops) == 2 and i.ops[0] == cur and i.ops[1] in REG64 and REG64[i.ops[1]][0] == r:
+                    return True
+                if i.mn in ('mov', 'lea') and i.ops and i.ops[0] == cur and not (len(i.ops) > 1 and cur in re.findall(r'\b[a-z0-9]+\b', i.ops[1])):
+                    return True
+                if i.ops and is_mem(i.ops[0]) and i.mn not in ('cmp', 'test', 'push', 'prefetcht0', 'prefetchw') and not i.mn.startswith(('nop', 'prefetch')):
+                    pm = parse_mem(i.ops[0])
+                    regs = {REG64[x][0] for x in (pm['base'], pm['index']) if x and x in REG64} if pm else set()
+                    if regs and not (regs & {sreg, 'rsp'}):
+                        return True
+                return False
+            for a, r in spec:
+                n += 1
+                R.instance()
+                seen, work, bad, parent = set(), [(s_, a) for s_ in u.succ(f, a)], None, {}
+                while work and bad is None:
+                    x, frm = work.pop()
+                    if x in seen or x not in f.aset:
+                        continue
+                    seen.add(x)
+                    parent[x] = frm
+                    i = u.insns[x]
+                    if is_mem(i.ops[0]) if i.ops else False:
+                        pm0 = parse_mem(i.ops[0])
+                        if i.mn == 'mov' and len(i.ops) == 2 and i.ops[1] == cur and pm0 and pm0['base'] in REG64 and REG64[pm0['base']][0] == sreg and pm0['disp'] == no and not pm0['index']:
+                            bad = x            # the cursor is handed back to the caller (state->next_out = cursor)
+                            break
+                    if cleanses(i, r):
+                        continue
+                    if i.mn == 'ret':
+                        continue
+                    for s_ in u.succ(f, x):
+                        work.append((s_, x))
+                if bad is not None:
+                    # describe by the last taken branch target on a path: find any jump in `seen` whose target is an exit label
+                    path, x = [], bad
+                    while x in parent and x != a:
+                        path.append(x)
+                        x = parent[x]
+                    path.reverse()
+                    js = [u.insns[p_] for k, p_ in enumerate(path[:-1]) if u.insns[p_].mn.startswith('j') and u.insns[p_].mn != 'jmp' and u.insns[p_].target == path[k + 1]]
+                R.check(bad is None, '%s: %s' % (un, u.where(u.insns[a], f)), '%s: after this advance of the output cursor by %s the store state->next_out = cursor is reachable without the copy, without "sub %s, %s" and without a '
+                        'redefinition of the cursor (e.g. through %s): the exit reports bytes that were never written - next_out / total_out too large, stale buffer contents delivered as data'
+                        % (fn, r, cur, r, u.where(js[0], f) if bad is not None and js else 'an error exit'), key='R-SPEC-ADVANCE|%s|%x' % (fn, a - f.addrs[0]),
+                        sample='%s: cursor %s += %s is undone or completed on every path to the return' % (fn, cur, r))
+    if n == 0:
+        raise AnalysisBroken('R-SPEC-ADVANCE: no kernel analysed')
+
+
 def check_asm(rep, V):
     R = rep.rule('R-GUARD-SINK-ASM', 'asm decoders: on every path from a read of the RFC distance table to a look-back read of the output buffer lies a conditional branch to the ISAL_INVALID_LOOKBACK exit', floor=2, unit='decoders')
     RV = rep.rule('R-GUARD-VALUE-ASM', 'asm decoders: the value each look-back guard compares with the saved start_out is, as a linear expression over the register contents before the guard, exactly the address of the first '
@@ -520,6 +612,7 @@ def main(tier):
     rep.attempt(check_sinks_c, rep, mod, V)
     rep.attempt(check_overflow_needs_buffer, rep, mod)
     rep.attempt(check_asm, rep, V)
+    rep.attempt(check_spec_advance, rep)
     rep.attempt(check_array_fills, rep, mod)
     rep.attempt(check_codelen_end, rep, mod)
     rep.attempt(check_kraft_cover, rep)
